@@ -125,6 +125,9 @@ pub fn case_of(sc: &StructCase) -> Case {
 #[macro_export]
 macro_rules! struct_property {
     ($ty:ty, $id:expr, $rule:expr) => {
+        $crate::struct_property!($ty, $id, $rule, |_s: &$ty| 1600usize);
+    };
+    ($ty:ty, $id:expr, $rule:expr, $maxtape:expr) => {
         impl $crate::runner::Property for $ty {
             fn id(&self) -> &'static str {
                 $id
@@ -133,7 +136,7 @@ macro_rules! struct_property {
                 self.stage
             }
             fn max_tape(&self) -> usize {
-                1600
+                ($maxtape)(self)
             }
             fn rule(&self) -> String {
                 $rule.to_string()
